@@ -457,4 +457,137 @@ example : CtxOk .amd64 (toCtx cfiDump.arch ⟨0x400100, 0x10008, 0x10010, [("rbx
   toCtx_ok _ _ _ (startCtx_regsOk cfiDump [cfiThread] cfi_hyps.1 cfi_hyps.2.2.1 cfiThread
     List.mem_cons_self _ cfi_hyps.2.2.2.1)
 
+/-! ### an actual `cfi` frame on `cfiDump`
+
+  The model of `index` is not kernel-reducible as a whole (range tables are built by a sort), so the
+  second frame is obtained the way C06Env.lean's example obtains it: tables by C08's lemmas
+  (`cfi_modTable`, `cfi_cfiTable`), C06's `walkFrame` on the record by kernel evaluation,
+  `mkEnv_cfi_spec` + `cfi_frame_epilogue` + `walk_second` for the walker side, `stacks_are_walks`
+  for the state. -/
+section CfiFrame
+open MdModel.CfiBridge
+
+def cfiRegs : Regs := ⟨0x400100, 0x10008, 0x10010, [("rbx", 7), ("r12", 9)]⟩
+def cfiMem0 : Mem := (walkMem cfiDump (some regionA)).getD { base := 0, bytes := #[] }
+def cfiRec : Walk.CfiRec := ⟨0x100, 0x300, ".cfa: $rsp 16 + .ra: .cfa -8 + ^", []⟩
+
+theorem cfi_cfiTable : Walk.cfiTable cfiSf = [(⟨0x100, 0x3ff⟩, 0)] := by
+  have hsep : RangeMap.Sep [(⟨0x100, 0x3ff⟩, 0)] := by
+    simp [RangeMap.Sep, RangeMap.WF, U64MAX]
+  have hl : (cfiSf.cfis.zipIdx.filterMap fun (c, i) => (RangeMap.mkRange c.addr c.size).map fun r => (r, i)) =
+      [(⟨0x100, 0x3ff⟩, 0)] := by decide
+  unfold Walk.cfiTable
+  rw [hl]
+  simp [RangeMap.safeVecP, RangeMap.sortEntries_of_sep _ hsep, RangeMap.pass_of_sep _ hsep]
+
+theorem cfiCtx_ok : CtxOk .amd64 (toCtx 9 cfiRegs) :=
+  toCtx_ok _ _ _ (startCtx_regsOk cfiDump [cfiThread] cfi_hyps.1 cfi_hyps.2.2.1 cfiThread
+    List.mem_cons_self _ cfi_hyps.2.2.2.1)
+
+def cfiW : Cfi.Walker := walkerOf ⟨.amd64, toCtx 9 cfiRegs, cfiMem0⟩ 0x400100
+  (fwdOf .amd64 ⟨toCtx 9 cfiRegs, Walk.forwarded .amd64 (toCtx 9 cfiRegs)⟩)
+
+/-- `get_caller_by_cfi` on a frame with thread 0's start context at 0x400100 -/
+theorem cfi_caller (callee : Walk.Frame) (grand : Option Walk.Frame) (hc : callee.ctx = toCtx 9 cfiRegs)
+    (hi : callee.instruction = 0x400100) :
+    ∃ r, (Walk.mkEnv .amd64 .other (worldOf cfiDump) cfiMem0).cfi callee grand = some r ∧
+      r.sp = 0x10018 ∧ r.ip = 0x10030 := by
+  obtain ⟨ctx, trust, instr, md, fn⟩ := callee
+  simp only at hc hi
+  subst hc hi
+  obtain ⟨_, _, hsome⟩ := mkEnv_cfi_spec .amd64 .other (worldOf cfiDump) cfiMem0
+    ⟨toCtx 9 cfiRegs, trust, 0x400100, md, fn⟩ grand cfiCtx_ok
+  have hk : Walk.moduleAt (Walk.modTable (worldOf cfiDump).mods) 0x400100 = some 0 := by rw [cfi_modTable]; decide
+  obtain ⟨m, hm, _, _, _, hsf⟩ := hsome 0 hk
+  have hm' : m = ⟨0x400000, 0x1000, "mod"⟩ := by
+    have : (worldOf cfiDump).mods[0]? = some ⟨0x400000, 0x1000, "mod"⟩ := by rw [cfi_world]; rfl
+    rw [this] at hm; exact (Option.some.inj hm).symm
+  obtain ⟨_, hget⟩ := hsf cfiSf (by rw [cfi_world]; rfl)
+  have hj : RangeMap.get (Walk.cfiTable cfiSf) (0x400100 - m.base) = some 0 := by
+    rw [hm', cfi_cfiTable]; decide
+  obtain ⟨rec, hrec, _, hmain⟩ := hget 0 hj
+  have hrec' : rec = cfiRec := by
+    have : cfiSf.cfis[0]? = some cfiRec := rfl
+    rw [this] at hrec; exact (Option.some.inj hrec).symm
+  have hsp0 : spValid (Walk.effArch .amd64 (toCtx 9 cfiRegs)) (toCtx 9 cfiRegs) = true := rfl
+  have hmain := hmain hsp0
+  have hW : c06Walker .amd64 cfiMem0 ⟨toCtx 9 cfiRegs, trust, 0x400100, md, fn⟩ = cfiW := rfl
+  have ha : Walk.effArch .amd64 (toCtx 9 cfiRegs) = .amd64 := rfl
+  simp only [ha, hW] at hmain
+  have hvals : (Cfi.walkFrame (recOf cfiRec) 0x400000 cfiW).map (fun c => (c.cfa, c.ra)) =
+      some (some 0x10018, some 0x10030) := by decide
+  have hbase : m.base = 0x400000 := by rw [hm']
+  cases hc : Cfi.walkFrame (recOf rec) m.base cfiW with
+  | none => rw [hrec', hbase] at hc; rw [hc] at hvals; cases hvals
+  | some c =>
+    rw [hc] at hmain
+    simp only at hmain
+    obtain ⟨cfa, ra, c', r, vs, h1, h2, h3, h4, _, _, _, h8⟩ := hmain
+    rw [hrec', hbase] at hc h3
+    rw [hc] at hvals
+    simp only [Option.map_some, Option.some.injEq, Prod.mk.injEq] at hvals
+    rw [hvals.1] at h1; rw [hvals.2] at h2
+    cases h1; cases h2
+    have hregs : (Cfi.walkFrame (recOf cfiRec) 0x400000 (seeded .amd64 cfiW 0x10018 0x10030)).map
+        (fun c => (c.get (utf8 "rsp"), c.get (utf8 "rip"))) = some (some 0x10018, some 0x10030) := by decide
+    rw [h3] at hregs
+    simp only [Option.map_some, Option.some.injEq, Prod.mk.injEq] at hregs
+    obtain ⟨r1, r2⟩ := hregs
+    have hp : ∀ s v, paMask .amd64 (Walk.mkEnv .amd64 .other (worldOf cfiDump) cfiMem0).mask s v = v := by
+      intro s v; simp [paMask, isArm64]
+    obtain ⟨hsp, hip⟩ := h8 (by decide)
+    refine ⟨r, h4, ?_, ?_⟩
+    · rw [hsp]; show (Option.map UInt64.toNat (c'.get (utf8 "rsp"))).getD _ = _; rw [r1]; rfl
+    · rw [hip, hp]; show (Option.map UInt64.toNat (c'.get (utf8 "rip"))).getD _ = _; rw [r2]; rfl
+
+/-- **non-vacuity of §2 with an actual `cfi` frame**: call stack 0 of `cfiDump`'s state has a second
+    frame, its trust is `cfi` (found through the STACK CFI record of `mod`: CFA = rsp + 16 = 0x10018,
+    return address = the word at 0x10010 = 0x10030), and `state_cfi_frames_follow_c06` applies to it -/
+example : ∃ s, index cfiDump = .state s ∧ ∃ (h2 : 0 < s.stacks.length) (hj : 0 + 1 < s.stacks[0].frames.length),
+    s.stacks[0].frames[0 + 1].f.trust = .cfi ∧ s.stacks[0].frames[0 + 1].f.ctx.sp = 0x10018 ∧
+    s.stacks[0].frames[0 + 1].f.ctx.ip = 0x10030 ∧
+    FollowsC06 .amd64 .other (worldOf cfiDump) cfiMem0 s.stacks[0].frames[0].f s.stacks[0].frames[0 + 1].f := by
+  obtain ⟨hth, hn, hregs, hstart, hsel, -, -⟩ := cfi_hyps
+  obtain ⟨s, hs⟩ := index_total cfiDump [cfiThread] hth
+  have hl := (stack_at cfiDump [cfiThread] s hth hs).1
+  have h2 : 0 < s.stacks.length := by rw [hl]; decide
+  have h1 : 0 < [cfiThread].length := by decide
+  refine ⟨s, hs, h2, ?_⟩
+  have hw := stacks_are_walks cfiDump [cfiThread] s hth hs 0 h1 h2
+  have hstart' : startCtx cfiDump [cfiThread][0] = some cfiRegs := hstart
+  rw [hstart'] at hw
+  simp only at hw
+  have hsel' : selectMem (memoryList cfiDump) [cfiThread][0] (some cfiRegs.sp) = some regionA := hsel
+  rw [(env_spec cfiDump _).2.2.1 hn, hsel'] at hw
+  have ea : (unwinderOf cfiDump.arch).getD .x86 = .amd64 := by decide
+  have eo : walkOs (Os.ofPlatformId cfiDump.platformId) = .other := by decide
+  have em : walkMem cfiDump (some regionA) = some cfiMem0 := by rfl
+  have ec : toCtx cfiDump.arch cfiRegs = toCtx 9 cfiRegs := rfl
+  rw [ea, eo, ec, em] at hw
+  have hm0 : (some cfiMem0).getD { base := 0, bytes := #[] } = cfiMem0 := rfl
+  rw [hm0] at hw
+  -- the second frame of that walk, by `get_caller_by_cfi` + the epilogue
+  obtain ⟨r, hcfi, hsp, hip⟩ := cfi_caller
+    (Walk.symbolise (Walk.mkEnv .amd64 .other (worldOf cfiDump) cfiMem0) (Walk.Frame.ofCtx (toCtx 9 cfiRegs) .context))
+    none rfl rfl
+  have hstep := (cfi_frame_epilogue (Walk.mkEnv .amd64 .other (worldOf cfiDump) cfiMem0) cfiMem0
+    (Walk.symbolise (Walk.mkEnv .amd64 .other (worldOf cfiDump) cfiMem0) (Walk.Frame.ofCtx (toCtx 9 cfiRegs) .context))
+    { ctx := r, trust := .cfi, instruction := r.ip - 1 } none).mpr
+      ⟨r, hcfi, by rw [hip]; decide, .inl (by rw [hsp]; decide), rfl⟩
+  obtain ⟨rest, hwalk⟩ := walk_second _ cfiMem0 (toCtx 9 cfiRegs) _ (by decide) (by decide) hstep.1
+  rw [hwalk] at hw
+  have hlen : 0 + 1 < s.stacks[0].frames.length := by
+    have := congrArg List.length hw
+    simp at this
+    omega
+  obtain ⟨_, e1⟩ := getElem_of_map_eq hw (0 + 1) hlen
+  have e1' : s.stacks[0].frames[0 + 1].f =
+      Walk.symbolise (Walk.mkEnv .amd64 .other (worldOf cfiDump) cfiMem0) { ctx := r, trust := .cfi, instruction := r.ip - 1 } := e1.symm
+  have ht : s.stacks[0].frames[0 + 1].f.trust = .cfi := by rw [e1']; rfl
+  refine ⟨hlen, ht, by rw [e1']; exact hsp, by rw [e1']; exact hip, ?_⟩
+  have := state_cfi_frames_follow_c06 cfiDump [cfiThread] s hth hs hn hregs 0 h1 h2 cfiRegs hstart' 0 hlen ht
+  rw [ea, eo, hsel', em] at this
+  exact this
+end CfiFrame
+
 end MdModel.Index
